@@ -954,6 +954,7 @@ class Names:
         self.used = set()
         self.closed = []      # (mod, name) of finished classes
         self.flavour = {}     # (mod, name) -> flavour of finished classes
+        self.leaf_pool = None  # adversarial: the few scalar types this program keeps re-using
         self.generics = []    # finished composite sub-specs (reused by identity)
 
     def fresh(self, prefix):
@@ -1078,6 +1079,12 @@ def specs(draw, names: Names | None = None, *, max_depth=3, hashable=False, key=
         return draw(st.sampled_from(names.generics))
 
     if k == "scalar":
+        if names.adversarial and not scalars:
+            # a program re-uses a few leaf types over and over (the same leaf in a nested class and in the class around it)
+            if names.leaf_pool is None:
+                names.leaf_pool = draw(st.lists(st.sampled_from(SCALARS), min_size=2, max_size=3, unique=True))
+            if draw(st.integers(0, 2)):
+                return S(draw(st.sampled_from(names.leaf_pool)))
         return S(draw(st.sampled_from(scalars or SCALARS)))
     if k == "enum":
         return draw(enum_specs(names, mod=draw(st.integers(0, mods - 1))))
@@ -1203,6 +1210,23 @@ def repeated_generic_specs(draw, mods=2):
     container first and bare afterwards, or the other way round - the shapes in which the type graph meets G again."""
     names = Names(False)
     leaf = st.sampled_from(["Decimal", "date", "datetime", "UUID", "int", "float", "timedelta", "Fraction", "str"]).map(S)
+    if draw(st.integers(0, 4)) == 0:
+        # a nested class made of the very leaf types its enclosing class (or a sibling) also uses, declared before / after them
+        la, lb = draw(leaf), draw(leaf)
+        flv = st.sampled_from(["dataclass", "namedtuple", "typeddict", "plain"])
+        fi = draw(flv)
+        inner = {"k": "class", "name": names.fresh("In"), "mod": draw(st.integers(0, mods - 1)), "flavour": fi, "future": fi == "plain",
+                 "fields": [{"n": "start", "t": la}, {"n": "days", "t": lb}]}
+        own = [{"n": "made", "t": la}, {"n": "seats", "t": lb}]
+        fo = draw(flv)
+        fields = [{"n": "span", "t": inner}, *own] if draw(st.booleans()) else [*own, {"n": "span", "t": inner}]
+        outer_c = {"k": "class", "name": names.fresh("Out"), "mod": draw(st.integers(0, mods - 1)), "flavour": fo, "future": fo == "plain", "fields": fields}
+        shape = draw(st.sampled_from(["class", "list", "pair"]))
+        if shape == "class":
+            return outer_c
+        if shape == "list":
+            return {"k": "list", "sp": "list", "a": [outer_c]}
+        return {"k": "tuple", "sp": "tuple", "a": [inner, la] if draw(st.booleans()) else [la, inner]}
     kind = draw(st.sampled_from(["tuple", "list", "dict", "vtuple", "optional-list", "set"]))
     if kind == "tuple":
         g = {"k": "tuple", "sp": "tuple", "a": [draw(leaf) for _ in range(draw(st.integers(1, 3)))]}
